@@ -4,6 +4,7 @@
 package main
 
 import (
+	"encoding/json"
 	"flag"
 	"fmt"
 	"os"
@@ -49,6 +50,19 @@ func main() {
 	flag.Parse()
 	if *dump != "" {
 		os.Exit(dumpMain(*repo, *dump))
+	}
+	if *prop == "explain" {
+		var ids []string
+		for id := range registry {
+			ids = append(ids, id)
+		}
+		sort.Strings(ids)
+		for _, id := range ids {
+			m := registry[id].meta
+			b, _ := json.Marshal(map[string]any{"id": id, "explanation": m.Explanation, "rule": m.Rule, "exhaustive": m.Exhaustive})
+			fmt.Println(string(b))
+		}
+		return
 	}
 	if *prop == "" {
 		fmt.Println("ERROR -property required")
